@@ -376,6 +376,34 @@ func (cx *Ctx) checkErrPropagation(r *Report, rule, key string, fn *ssa.Function
 				}
 			}
 		}
+		// ... and no path that made the call returns "no error" without having found the call's error nil (the test
+		// sits on some other branch: `if sp == nil { if err == nil {...}; return err }; return nil`)
+		if bad == "" {
+			for i := range aps {
+				p := &aps[i]
+				if !p.Has(call.Block()) || p.Ret == nil {
+					continue
+				}
+				// the call comes before the return on this path
+				rv := fx.retVal(p, res.Len()-1)
+				if !isNilConst(rv) {
+					continue
+				}
+				foundNil, _ := fx.errNilness(p, e)
+				if !foundNil {
+					// an alias tested nil
+					for _, a := range fx.aliasesOf(e) {
+						if n, _ := fx.errNilness(p, a); n {
+							foundNil = true
+						}
+					}
+				}
+				if !foundNil {
+					bad = "a path returns nil at " + w.InstrPos(p.Ret) + " although the error of " + calleeName(call) + " was not found nil on it: the failure is swallowed"
+					break
+				}
+			}
+		}
 		// nothing that counts as success may be reachable from the failing branch - also not through a back edge
 		// (a retry loop that calls the storage again after it failed)
 		if bad == "" {
